@@ -37,7 +37,7 @@ type Profile struct {
 
 func baseWeights() map[string]int {
 	return map[string]int{"aol": 30, "aolAdv": 8, "did": 18, "didAdv": 8, "pnft": 22, "pnftAdv": 8, "bank": 4, "burn": 3, "vest": 1,
-		"authz": 5, "boundary": 4, "hostile": 3, "tamper": 4, "replay": 4, "multi": 5, "hquery": 2}
+		"authz": 5, "boundary": 4, "hostile": 3, "tamper": 4, "replay": 4, "multi": 5, "hquery": 2, "rollback": 4}
 }
 
 func profileFor(prop, tier string, rng *PRNG) *Profile {
@@ -67,11 +67,13 @@ func profileFor(prop, tier string, rng *PRNG) *Profile {
 		boost("aol", 2)
 		p.PBootstrap, p.PCrash = 0.08, 0.15
 	case "C02":
-		only("aol", "aolAdv", "authz", "multi", "tamper")
+		only("aol", "aolAdv", "authz", "multi", "tamper", "rollback")
+		boost("rollback", 3)
 		boost("aolAdv", 4)
 		boost("authz", 3)
 	case "C03":
-		only("did", "didAdv", "replay")
+		only("did", "didAdv", "replay", "rollback")
+		boost("rollback", 2)
 		boost("didAdv", 4)
 	case "C04":
 		only("did", "didAdv", "replay")
@@ -83,7 +85,8 @@ func profileFor(prop, tier string, rng *PRNG) *Profile {
 		boost("replay", 3)
 		p.PCrash, p.PBootstrap, p.CrashEnum = 0.25, 0.08, 1
 	case "C06":
-		only("pnft", "pnftAdv", "authz", "tamper", "multi")
+		only("pnft", "pnftAdv", "authz", "tamper", "multi", "rollback")
+		boost("rollback", 3)
 		boost("pnftAdv", 4)
 		boost("authz", 2)
 	case "C07":
@@ -99,11 +102,13 @@ func profileFor(prop, tier string, rng *PRNG) *Profile {
 		p.PBootstrap = 0.25
 		p.Seeded = 0.7
 	case "C09":
+		boost("rollback", 3)
 		p.Replicas = [2]int{3, 4}
 		p.PCrash, p.PLag, p.PReconfig = 0.1, 0.1, 0.08
 		p.MidRate = 0.3
 		p.Seeded = 0.7
 	case "C10":
+		boost("rollback", 3)
 		p.PCrash = 0.3
 		p.CrashEnum, p.CrashSamp = 2, 10
 		if tier == "thorough" {
@@ -127,10 +132,13 @@ func profileFor(prop, tier string, rng *PRNG) *Profile {
 		p.PAmino = 0.5
 	case "C15":
 		boost("multi", 8)
+		boost("rollback", 4)
 		boost("aolAdv", 2)
 		p.PAmino = 0.3
 	case "C16":
 		boost("boundary", 25)
+		boost("didAdv", 3)
+		boost("did", 2)
 		boost("authz", 2)
 		boost("multi", 2)
 	case "C17":
@@ -201,6 +209,7 @@ type Gen struct {
 	upgraded    bool
 	boundaryPos int
 	hostilePos  int
+	whale       bool
 }
 
 type didRef struct {
@@ -233,6 +242,10 @@ func GenerateScript(seed uint64, prop, tier string, env *Env) *Script {
 	s.Config.Genesis.TimeUnix = []int64{1700000000, 946684800, 4102444800, 1}[rng.Pick([]int{6, 1, 1, 1})]
 	if rng.Chance(0.5) || prop == "C07" {
 		s.Config.Genesis.ExtraDenoms = []string{"uatom", "ibc/27394FB092D2ECCD56123C74F36E4C1F926001CEADA9CA97EA622B25F41E5EB2"}[:rng.Range(1, 2)]
+	}
+	if rng.Chance(0.5) || prop == "C07" || prop == "C17" {
+		s.Config.Genesis.ExtraDenoms = append(s.Config.Genesis.ExtraDenoms, WhaleDenom)
+		g.whale = true
 	}
 	g.now = time.Unix(s.Config.Genesis.TimeUnix, 0).UTC()
 	g.plan = NewModel()
@@ -480,6 +493,8 @@ func (g *Gen) family(f string) {
 		g.famMulti()
 	case "hquery":
 		g.famHostileQuery()
+	case "rollback":
+		g.famRollback()
 	}
 }
 
@@ -736,6 +751,49 @@ func (g *Gen) famDid() {
 	}
 }
 
+// caseVariant flips the case of one letter of the method-specific id such that the result is still base58:
+// a different, equally valid DID that a case-insensitive comparison would confuse with the original.
+func caseVariant(did string, r *PRNG) string {
+	const b58 = "123456789ABCDEFGHJKLMNPQRSTUVWXYZabcdefghijkmnopqrstuvwxyz"
+	b := []byte(did)
+	start := len("did:panacea:")
+	var cands []int
+	for i := start; i < len(b); i++ {
+		c := b[i]
+		var f byte
+		switch {
+		case c >= 'a' && c <= 'z':
+			f = c - 32
+		case c >= 'A' && c <= 'Z':
+			f = c + 32
+		default:
+			continue
+		}
+		if strings.IndexByte(b58, f) >= 0 {
+			cands = append(cands, i)
+		}
+	}
+	if len(cands) == 0 {
+		return did
+	}
+	i := cands[r.Intn(len(cands))]
+	if b[i] >= 'a' {
+		b[i] -= 32
+	} else {
+		b[i] += 32
+	}
+	return string(b)
+}
+
+func indexOf(a []string, x string) int {
+	for i, s := range a {
+		if s == x {
+			return i
+		}
+	}
+	return 0
+}
+
 func dedupInts(a []int) []int {
 	seen := map[int]bool{}
 	var out []int
@@ -767,7 +825,29 @@ func (g *Gen) famDidAdv() {
 	upd := func(p *ProofSpec, doc *DocSpec) {
 		g.tx(MsgSpec{T: "did.Update", F: map[string]string{"did": did, "from": from}, Doc: doc, Proof: p})
 	}
-	switch r.Intn(14) {
+	switch r.Intn(17) {
+	case 15: // C11 near-miss: the did field is a case variant of the document id (base58 is case-sensitive: a different DID)
+		odid := g.env.Dids[other]
+		doc := g.didDoc(odid, []int{other}, 0)
+		g.tx(MsgSpec{T: "did.Create", F: map[string]string{"did": caseVariant(odid, r), "from": from}, Doc: doc, Proof: &ProofSpec{Key: other, MethodID: fmt.Sprintf("%s#key%d", odid, other), Seq: "0"}})
+	case 16: // C11 near-miss: update of an existing DID with a document about its case variant
+		doc := g.didDoc(caseVariant(did, r), []int{k}, 0)
+		upd(&ProofSpec{Key: k, MethodID: mid, Seq: "cur"}, doc)
+	case 14: // identifiers that are valid for ANOTHER registered DID: a method id '<otherDid>#...' inside this DID's document
+		if len(act) > 1 {
+			od := act[(r.Intn(len(act)-1)+1+indexOf(act, did))%len(act)]
+			_, omids := g.authKeys(od)
+			if len(omids) > 0 {
+				doc := g.didDoc(did, []int{k}, 0)
+				doc.VMs = append(doc.VMs, VMSpec{Id: omids[0], Type: "EcdsaSecp256k1VerificationKey2019", Controller: did, Key: other})
+				if r.Chance(0.5) {
+					doc.Assertion = append(doc.Assertion, RelSpec{Ref: omids[0]})
+				}
+				upd(&ProofSpec{Key: k, MethodID: mid, Seq: "cur"}, doc)
+				return
+			}
+		}
+		g.famDid()
 	case 0: // a key that is not in the document at all
 		upd(&ProofSpec{Key: other, MethodID: mid, Seq: "cur"}, g.didDoc(did, []int{other}, 0))
 	case 1: // wrong sequence
@@ -1030,6 +1110,9 @@ func (g *Gen) famPnftAdv() {
 
 func (g *Gen) someCoins() []CoinSpec {
 	r := g.rng
+	if g.whale && r.Chance(0.2) { // extreme integers: beyond int64, beyond uint64, near 2^128
+		return []CoinSpec{{Denom: WhaleDenom, Amount: []string{"9223372036854775807", "9223372036854775808", "18446744073709551616", "340282366920938463463374607431768211456", "1"}[r.Intn(5)]}}
+	}
 	den := FeeDenom
 	if r.Chance(0.3) {
 		den = "uatom"
@@ -1257,4 +1340,107 @@ func (g *Gen) famTamper() {
 	if r.Chance(0.3) {
 		g.emit(&TxSpec{Msgs: honest})
 	}
+}
+
+// famRollback: "dependent pair under rollback". m2 is only allowed once m1 has taken effect. The pair is executed on
+// state that is then thrown away - as one transaction [m1, m2, failing message] that is rolled back as a whole, or as
+// a simulation that is never broadcast - and afterwards m2 is submitted alone: it must be refused exactly as if the
+// discarded execution had never happened (anything kept outside the store would show here).
+func (g *Gen) famRollback() {
+	r := g.rng
+	var m1, m2 MsgSpec
+	var follow []MsgSpec
+	dens := g.planDenoms()
+	toks := g.planTokens()
+	topics := g.planTopics()
+	act := g.planDids(true)
+	kind := r.Intn(5)
+	switch {
+	case kind == 0 && len(dens) > 0: // hand a denom over, the receiver mints
+		d := dens[r.Intn(len(dens))]
+		a := g.plan.Denoms[d].Owner
+		b := g.addr(5 + r.Intn(4))
+		if sameAddr(a, b) || g.env.AccByAddr(mustAddr(a)) == nil {
+			return
+		}
+		m1 = M("pnft.TransferDenom", "id", d, "sender", a, "receiver", b)
+		m2 = M("pnft.Mint", "denom", d, "id", fmt.Sprintf("rb%d", g.next), "name", "n", "creator", b)
+		follow = []MsgSpec{M("pnft.Mint", "denom", d, "id", fmt.Sprintf("rbf%d", g.next), "name", "n", "creator", b), M("pnft.Mint", "denom", d, "id", fmt.Sprintf("rbo%d", g.next), "name", "n", "creator", a)}
+	case kind == 1 && len(toks) > 0: // transfer a token, the receiver burns it
+		t := toks[r.Intn(len(toks))]
+		a := g.plan.Tokens[t[0]][t[1]].Owner
+		b := g.addr(5 + r.Intn(4))
+		if sameAddr(a, b) || g.env.AccByAddr(mustAddr(a)) == nil {
+			return
+		}
+		m1 = M("pnft.Transfer", "denom", t[0], "id", t[1], "sender", a, "receiver", b)
+		m2 = M("pnft.Transfer", "denom", t[0], "id", t[1], "sender", b, "receiver", g.addr(1))
+		follow = []MsgSpec{M("pnft.Burn", "denom", t[0], "id", t[1], "burner", b)}
+	case kind == 2 && len(topics) > 0: // add a writer, the writer appends
+		t := topics[r.Intn(len(topics))]
+		w := g.addr(5 + r.Intn(4))
+		for _, ex := range g.planWriters(t[0], t[1]) {
+			if ex == w {
+				return
+			}
+		}
+		m1 = M("aol.AddWriter", "topic", t[1], "owner", t[0], "writer", w, "moniker", "rb")
+		m2 = g.recordSpec(t[0], t[1], w, "")
+		follow = []MsgSpec{g.recordSpec(t[0], t[1], w, "")}
+	case kind == 3 && len(topics) > 0: // remove a writer (rolled back): the writer must still be able to append
+		t := topics[r.Intn(len(topics))]
+		ws := g.planWriters(t[0], t[1])
+		if len(ws) == 0 || g.env.AccByAddr(mustAddr(ws[0])) == nil {
+			return
+		}
+		m1 = M("aol.DeleteWriter", "topic", t[1], "owner", t[0], "writer", ws[0])
+		m2 = M("aol.CreateTopic", "topic", fmt.Sprintf("rb%d", g.next), "owner", t[0])
+		follow = []MsgSpec{g.recordSpec(t[0], t[1], ws[0], "")}
+	case len(act) > 0: // rotate a DID key, the new key acts
+		did := act[r.Intn(len(act))]
+		keys, mids := g.authKeys(did)
+		if len(keys) == 0 {
+			return
+		}
+		nk := (keys[0] + 1 + r.Intn(6)) % NumDidKeys
+		if nk == keys[0] {
+			return
+		}
+		from := g.addr(r.Intn(4))
+		nmid := fmt.Sprintf("%s#key%d", did, nk)
+		m1 = MsgSpec{T: "did.Update", F: map[string]string{"did": did, "from": from}, Doc: g.didDoc(did, []int{nk}, 0), Proof: &ProofSpec{Key: keys[0], MethodID: mids[0], Seq: "cur"}}
+		m2 = MsgSpec{T: "did.Update", F: map[string]string{"did": did, "from": from}, Doc: g.didDoc(did, []int{nk, keys[0]}, 0), Proof: &ProofSpec{Key: nk, MethodID: nmid, Seq: "cur+1"}}
+		follow = []MsgSpec{{T: "did.Deactivate", F: map[string]string{"did": did, "from": from}, Proof: &ProofSpec{Key: nk, MethodID: nmid, Seq: "cur"}}}
+	default:
+		return
+	}
+	bad := M("aol.AddWriter", "topic", "no-such-topic-rollback", "owner", m1.F[firstActorField(m1)], "writer", g.addr(0))
+	if m1.T[:3] == "did" {
+		bad = M("aol.AddWriter", "topic", "no-such-topic-rollback", "owner", m1.F["from"], "writer", g.addr(0))
+	}
+	spec := &TxSpec{Msgs: []MsgSpec{m1, m2, bad}, Note: "rolled back as a whole"}
+	if r.Chance(0.35) {
+		g.emitSimulate(spec, r.Intn(g.nrep))
+	} else {
+		g.emit(spec)
+	}
+	for _, f := range follow {
+		g.emit(&TxSpec{Msgs: []MsgSpec{f}, Note: "after rollback", Hold: r.Pick([]int{3, 1})})
+	}
+}
+
+func firstActorField(m MsgSpec) string {
+	for _, k := range []string{"owner", "sender", "creator", "updater", "remover", "burner", "from"} {
+		if _, ok := m.F[k]; ok {
+			return k
+		}
+	}
+	return "owner"
+}
+
+// emitSimulate: the transaction is only simulated on one replica and never broadcast.
+func (g *Gen) emitSimulate(t *TxSpec, replica int) {
+	g.next++
+	g.steps = append(g.steps, Step{K: "simulate", ID: g.next, Tx: t, Replica: replica})
+	g.specs[g.next] = t
 }
